@@ -2,7 +2,7 @@
    eval_fc is the model of FormatConstraintTransformer + FormatErrorMessageExpressionBuilder (tied by correspondence).
    The tree e is whatever the parser produced; that its grouping follows the documented precedence is C01, and the
    Boolean value does not depend on the grouping inside runs of one operator (C01_value_independent_of_runs). *)
-From Ahb Require Import Model.Prelude Model.Grammar Gen.Gen_grammar Model.Lex Model.EvalRC Model.EvalFC Proofs.C08_fc Proofs.C07_parse.
+From Ahb Require Import Model.Prelude Model.Grammar Gen.Gen_grammar Model.Lex Model.EvalRC Model.EvalFC Proofs.C08_fc Proofs.C07_parse Proofs.C08_env.
 
 Theorem C08_boolean : forall beta fe e, no_then e = true -> fenv_ok beta fe e ->
   exists r, eval_fc fe e = Ok r /\ ff r = bval beta e.
@@ -27,3 +27,11 @@ Print Assumptions C08_default_message.
 Theorem C08_value_independent_of_runs : forall (beta : atom -> bool) its e e', Rc its e -> Rc its e' -> bvalg beta e = bvalg beta e'.
 Proof. exact value_independent_of_runs. Qed.
 Print Assumptions C08_value_independent_of_runs.
+
+(* C08 for format_constraint_evaluation itself (dict / content-evaluation-result based evaluators): whenever every key of the expression
+   has an entry, the evaluation succeeds, its value is the Boolean value of the expression under the entries, and -- if every entry carries
+   an error message exactly when it is unfulfilled (interpretation I-C08) -- the result carries a message iff it is unfulfilled *)
+Theorem C08_format_constraint_evaluation : forall c e, no_then e = true -> fc_total c e ->
+  exists r, fc_evaluation c (Some e) = Ok r /\ ff r = bval (beta_of c) e /\ (fc_messages_ok c e -> (fmsg r <> None <-> ff r = false)).
+Proof. exact fc_evaluation_value. Qed.
+Print Assumptions C08_format_constraint_evaluation.
